@@ -9,6 +9,8 @@ for l in open('/verif/properties.jsonl'):
 extra = ""
 if mode == "boundary":
     extra = """  5b. HARD TO SEE FOR A PER-FUNCTION CODE REVIEW: the library is also checked by a tool that verifies each function against a written contract, treating the third-party libraries it calls (fxamacker/cbor, go-cose, veraison/eat, encoding/json, reflect, regexp, crypto) as black boxes with assumed behaviour. Prefer changes whose effect arises OUTSIDE the changed function's own logic: a different but plausible argument, option, mode, type or receiver handed to a library call; a struct tag, constant, regular expression, table or initialisation order; a value that aliases or is shared through an interface; behaviour that only shows through reflection or through the interplay of two files. Avoid plain off-by-one / wrong-operator edits in arithmetic or comparisons (those were collected in earlier rounds)."""
+if mode == "cooperate":
+    extra = """  5b. WHAT THIS ROUND WANTS. The library is also checked by a tool that verifies each function separately against a written contract, treating the third-party libraries it calls (fxamacker/cbor, go-cose, veraison/eat, encoding/json, reflect, regexp, crypto) as black boxes with assumed behaviour. Earlier rounds already collected: limits added to codec options, struct-tag edits, value<->pointer receiver changes, %w->%v, assign-before-validate in setters, wrong lifecycle range constants, off-by-one length checks in the getters, dropped nil checks. Do NOT deliver those again. Wanted instead, in this order of preference: (i) TWO COOPERATING SITES -- two small edits in different functions (better: different files), each of which is behaviour-preserving or defensible when looked at alone (e.g. a callee starts to rely on something a caller no longer guarantees; a normalisation moves from one place to another and one path is forgotten; a helper's result changes meaning slightly and one of its users is not adapted), which only together break the property; (ii) a change inside a SECONDARY helper that the main paths lean on (small predicates, conversions, key / algorithm checks, CBOR head parsing, ordered-map bookkeeping, registry lookups, error filtering), visible only for unusual inputs; (iii) an effect that needs a multi-step HISTORY on one object (set / fail / set again / encode; sign / fail / decode / verify)."""
 print(f"""You are testing how robust a Go library's guarantees are against subtle regressions.
 
 Library: veraison/psatoken (Go library for PSA attestation tokens: profile-specific claim sets with validation, CBOR/JSON encoding, COSE_Sign1 signing and verification).
